@@ -29,9 +29,15 @@ QUERIES = [
     "SELECT s, k FROM L ORDER BY s DESC, k LIMIT 5",
     "SELECT s FROM L UNION SELECT s FROM R",
     "SELECT l.s || r.s, length(l.s) FROM L l INNER JOIN R r ON l.k = r.k ORDER BY 1",
-    "SELECT * FROM L l LEFT JOIN R r ON l.k = r.k LEFT JOIN L l2 ON r.s = l2.s",
+    "SELECT count(*), max(l2.s), min(length(l.s) + length(r.s)) FROM L l LEFT JOIN R r ON l.k = r.k LEFT JOIN L l2 ON r.s = l2.s",
     "WITH x AS (SELECT s, k FROM L WHERE k >= 0) SELECT count(*) FROM x a INNER JOIN x b ON a.k < b.k",
     "SELECT * FROM L WHERE 1 = 0",
+    # aggregate states of different alignment side by side; rows reaching a sort / group / join through a selection
+    "SELECT bool_and(k > 0), count(*), min(CAST(k AS SMALLINT)), sum(k), bool_or(k IS NULL), avg(k) FROM L",
+    "SELECT s, bool_or(k > 3), count(*), max(CAST(k AS TINYINT)), sum(k) FROM L GROUP BY s",
+    "SELECT k, s FROM L WHERE k >= 0 OR k IS NULL ORDER BY s, k",
+    "SELECT s, count(*) FROM L WHERE k <> 1 GROUP BY s",
+    "SELECT l.k, r.s FROM (SELECT * FROM L WHERE k >= 0) l INNER JOIN (SELECT * FROM R WHERE k < 10) r ON l.s = r.s",
     "SELECT * FROM L l INNER JOIN (SELECT * FROM R WHERE k < 0) r ON l.k = r.k",
 ]
 
@@ -75,7 +81,7 @@ def run(tier):
         bs = int([s["sql"] for s in c["steps"] if s["sql"].startswith("SET batch_size")][0].split("=")[1])
         c["knobs"]["table_chunk_capacity"] = min(c["knobs"]["table_chunk_capacity"], bs)
     send = [{k: v for k, v in c.items() if not k.startswith("_")} for c in cases]
-    res = vlib.Driver(nworkers=6, case_timeout=120, mem_gb=4).run(send)
+    res = vlib.Driver(nworkers=6, case_timeout=180, mem_gb=6).run(send)
     task_traces, hj_lines, ha_lines, all_events, lines = [], [], [], [], []
     meta = {}
     for c, r in zip(cases, res):
